@@ -49,6 +49,12 @@ Headers/TreeProps.vos Headers/TreeProps.vok Headers/TreeProps.required_vos: Head
 Headers/TreeExample.vo Headers/TreeExample.glob Headers/TreeExample.v.beautified Headers/TreeExample.required_vo: Headers/TreeExample.v Base/Prelude.vo Base/Compact.vo Headers/Tree.vo Headers/TreeBasics.vo Headers/TreeInv.vo Headers/TreeSteps.vo Headers/TreeProps.vo
 Headers/TreeExample.vio: Headers/TreeExample.v Base/Prelude.vio Base/Compact.vio Headers/Tree.vio Headers/TreeBasics.vio Headers/TreeInv.vio Headers/TreeSteps.vio Headers/TreeProps.vio
 Headers/TreeExample.vos Headers/TreeExample.vok Headers/TreeExample.required_vos: Headers/TreeExample.v Base/Prelude.vos Base/Compact.vos Headers/Tree.vos Headers/TreeBasics.vos Headers/TreeInv.vos Headers/TreeSteps.vos Headers/TreeProps.vos
+Tx/TxManager.vo Tx/TxManager.glob Tx/TxManager.v.beautified Tx/TxManager.required_vo: Tx/TxManager.v Base/Prelude.vo
+Tx/TxManager.vio: Tx/TxManager.v Base/Prelude.vio
+Tx/TxManager.vos Tx/TxManager.vok Tx/TxManager.required_vos: Tx/TxManager.v Base/Prelude.vos
+Tx/TxProofs.vo Tx/TxProofs.glob Tx/TxProofs.v.beautified Tx/TxProofs.required_vo: Tx/TxProofs.v Base/Prelude.vo Tx/TxManager.vo
+Tx/TxProofs.vio: Tx/TxProofs.v Base/Prelude.vio Tx/TxManager.vio
+Tx/TxProofs.vos Tx/TxProofs.vok Tx/TxProofs.required_vos: Tx/TxProofs.v Base/Prelude.vos Tx/TxManager.vos
 Props/C20.vo Props/C20.glob Props/C20.v.beautified Props/C20.required_vo: Props/C20.v Base/Prelude.vo Peers/Peers.vo Peers/PeersProofs.vo
 Props/C20.vio: Props/C20.v Base/Prelude.vio Peers/Peers.vio Peers/PeersProofs.vio
 Props/C20.vos Props/C20.vok Props/C20.required_vos: Props/C20.v Base/Prelude.vos Peers/Peers.vos Peers/PeersProofs.vos
@@ -79,3 +85,6 @@ Props/C02.vos Props/C02.vok Props/C02.required_vos: Props/C02.v Base/Prelude.vos
 Props/C03.vo Props/C03.glob Props/C03.v.beautified Props/C03.required_vo: Props/C03.v Base/Prelude.vo Gen/Consts.vo Headers/Tree.vo Headers/Splits.vo Headers/SplitsProofs.vo
 Props/C03.vio: Props/C03.v Base/Prelude.vio Gen/Consts.vio Headers/Tree.vio Headers/Splits.vio Headers/SplitsProofs.vio
 Props/C03.vos Props/C03.vok Props/C03.required_vos: Props/C03.v Base/Prelude.vos Gen/Consts.vos Headers/Tree.vos Headers/Splits.vos Headers/SplitsProofs.vos
+Props/C06.vo Props/C06.glob Props/C06.v.beautified Props/C06.required_vo: Props/C06.v Base/Prelude.vo Tx/TxManager.vo Tx/TxProofs.vo
+Props/C06.vio: Props/C06.v Base/Prelude.vio Tx/TxManager.vio Tx/TxProofs.vio
+Props/C06.vos Props/C06.vok Props/C06.required_vos: Props/C06.v Base/Prelude.vos Tx/TxManager.vos Tx/TxProofs.vos
